@@ -1,0 +1,95 @@
+//! Verification hooks (cargo feature `verif-hooks`, add-only): public wrappers around the
+//! crate-private `Indexer<RocksdbStore>` so that an external harness can drive the real
+//! append / rollback / query code. Nothing here changes behaviour; with the feature off this
+//! module does not exist.
+use crate::indexer::Indexer;
+use crate::service::IndexerHandle;
+use crate::store::{IteratorDirection, RocksdbStore, Store};
+use ckb_indexer_sync::{CustomFilters, Error, IndexerSync};
+use ckb_types::{
+    H256,
+    core::{BlockNumber, BlockView},
+    packed::Byte32,
+};
+use std::path::Path;
+use std::time::Duration;
+
+/// The RocksDB indexer (`Indexer<RocksdbStore>`) opened on a directory.
+#[derive(Clone)]
+pub struct VerifIndexer {
+    store: RocksdbStore,
+    indexer: Indexer<RocksdbStore>,
+}
+
+impl VerifIndexer {
+    /// Open (or create) the indexer store at `path` with the given retention parameters and
+    /// optional rhai filters (same meaning as `IndexerConfig::{block_filter, cell_filter}`).
+    pub fn open<P: AsRef<Path>>(
+        path: P,
+        keep_num: u64,
+        prune_interval: u64,
+        block_filter: Option<&str>,
+        cell_filter: Option<&str>,
+    ) -> Self {
+        let store = RocksdbStore::new(&RocksdbStore::default_options(), path);
+        let indexer = Indexer::new(
+            store.clone(),
+            keep_num,
+            prune_interval,
+            None,
+            CustomFilters::new(block_filter, cell_filter),
+        );
+        VerifIndexer { store, indexer }
+    }
+
+    /// `Indexer::append`
+    pub fn append(&self, block: &BlockView) -> Result<(), Error> {
+        self.indexer.append(block)
+    }
+
+    /// `Indexer::rollback`
+    pub fn rollback(&self) -> Result<(), Error> {
+        self.indexer.rollback()
+    }
+
+    /// `Indexer::tip`
+    pub fn tip(&self) -> Result<Option<(BlockNumber, Byte32)>, Error> {
+        self.indexer.tip()
+    }
+
+    /// An `IndexerHandle` (the RPC query side) over the same store, without tx-pool overlay.
+    pub fn handle(&self, request_limit: usize, timeout_limit: Duration) -> IndexerHandle {
+        IndexerHandle::verif_new(self.store.clone(), None, request_limit, timeout_limit)
+    }
+
+    /// All raw key/value rows of the store in key order.
+    pub fn dump(&self) -> Vec<(Vec<u8>, Vec<u8>)> {
+        self.store
+            .iter([], IteratorDirection::Forward)
+            .expect("iter")
+            .map(|(k, v)| (k.to_vec(), v.to_vec()))
+            .collect()
+    }
+}
+
+impl IndexerSync for VerifIndexer {
+    fn tip(&self) -> Result<Option<(BlockNumber, Byte32)>, Error> {
+        self.indexer.tip()
+    }
+
+    fn append(&self, block: &BlockView) -> Result<(), Error> {
+        self.indexer.append(block)
+    }
+
+    fn rollback(&self) -> Result<(), Error> {
+        self.indexer.rollback()
+    }
+
+    fn get_identity(&self) -> &str {
+        self.indexer.get_identity()
+    }
+
+    fn set_init_tip(&self, init_tip_number: u64, init_tip_hash: &H256) {
+        self.indexer.set_init_tip(init_tip_number, init_tip_hash)
+    }
+}
